@@ -34,6 +34,19 @@ ModelWhy(e, side, name) ==
           THEN {name \o "_known_" \o (CHOOSE d \in KnownDevs : Matches(Step(Rd, e.pre, {d}), side.post, side.wr))}
           ELSE {name \o "_model"}
 
+\* emulation-mode steps and steps that dispatch an IRQ: compared with the AS-IMPLEMENTED model of Cpu65816.tla; these
+\* aspects ("*_emu_model", "*_irq_model") belong to no listed property and are reported as notes by the driver
+EmuWhy(e, side, name) ==
+  LET ov == OvFn(e)
+      Rd(a) == IF a \in DOMAIN ov THEN ov[a] ELSE Fill(e.seed, a)
+  IN IF side.panic THEN {name \o "_panic"}
+     ELSE IF Matches(Step(Rd, e.pre, {}), side.post, side.wr) THEN {} ELSE {name \o "_emu_model"}
+IrqWhy(e, side, name) ==
+  LET ov == OvFn(e)
+      Rd(a) == IF a \in DOMAIN ov THEN ov[a] ELSE Fill(e.seed, a)
+  IN IF side.panic THEN {}
+     ELSE IF Matches(StepIrq(Rd, e.pre, {}), side.post, side.wr) THEN {} ELSE {name \o "_irq_model"}
+
 AcctWhy(e, side, name) ==
   IF side.panic THEN {}
   ELSE A(side.cyc >= 1, name \o "_cyc0")
@@ -56,9 +69,9 @@ EquivWhy(e) ==
 
 \* stop status per the model: STP executed (post.stp) -- an interpreter that was stopped stays stopped
 Why(e) ==
-  (IF e.irq THEN {}          \* a step that dispatches an interrupt: accounting and equivalence only
+  (IF e.irq THEN IrqWhy(e, e.pri, "pri") \cup IrqWhy(e, e.alt, "alt")
    ELSE IF e.pre.E = 0 THEN ModelWhy(e, e.pri, "pri") \cup ModelWhy(e, e.alt, "alt")
-   ELSE A(~e.pri.panic, "pri_panic") \cup A(~e.alt.panic, "alt_panic"))
+   ELSE EmuWhy(e, e.pri, "pri") \cup EmuWhy(e, e.alt, "alt"))
   \cup AcctWhy(e, e.pri, "pri") \cup AcctWhy(e, e.alt, "alt")
   \cup EquivWhy(e)
   \cup (IF "line" \in DOMAIN e
